@@ -260,6 +260,33 @@ fn damages_for(file: &[u8]) -> Vec<Damage> {
 
 /// Oracle for one damaged file: Index::validate_checksum reports exactly that file, or fails naming it.
 fn check_damage(index: &Index, sim: &SimDirectory, path: &str, orig: &[u8], d: &Damage, variant: usize) -> Option<Violation> {
+    // validated twice: through the Index that wrote the files, and through an Index opened afterwards on the
+    // same directory (its ManagedDirectory knows only what .managed.json recorded)
+    if let Some(v) = check_damage_on(index, sim, path, orig, d, variant) {
+        return Some(v);
+    }
+    let reopened = REOPENED.with(|c| {
+        let mut c = c.borrow_mut();
+        match &*c {
+            Some((id, ix)) if *id == sim.instance_id() => ix.clone(),
+            _ => {
+                let ix = Index::open(sim.clone()).expect("reopening the generated index");
+                *c = Some((sim.instance_id(), ix.clone()));
+                ix
+            }
+        }
+    });
+    check_damage_on(&reopened, sim, path, orig, d, variant).map(|mut v| {
+        v.what = format!("(Index opened after the writer was dropped) {}", v.what);
+        v
+    })
+}
+
+thread_local! {
+    static REOPENED: std::cell::RefCell<Option<(usize, Index)>> = const { std::cell::RefCell::new(None) };
+}
+
+fn check_damage_on(index: &Index, sim: &SimDirectory, path: &str, orig: &[u8], d: &Damage, variant: usize) -> Option<Violation> {
     let damaged = d.apply(orig)?;
     if damaged == orig {
         return None;
@@ -453,7 +480,7 @@ pub fn run(ctx: &Ctx) -> Report {
     let mut rep = Report::new("model_checking");
     let thorough = ctx.tier.is_thorough();
     // ---- (a) write patterns
-    let maxw = if thorough { 4 } else { 3 };
+    let maxw = if thorough { 5 } else { 3 };
     let mut patterns: Vec<Vec<usize>> = vec![vec![]];
     let mut frontier: Vec<Vec<usize>> = vec![vec![]];
     for _ in 0..maxw {
@@ -507,6 +534,15 @@ pub fn run(ctx: &Ctx) -> Report {
         if let Some(v) = check_intact(&index, *variant) {
             st.violation(v);
         }
+        match Index::open(sim.clone()) {
+            Ok(re) => {
+                if let Some(mut v) = check_intact(&re, *variant) {
+                    v.what = format!("(Index opened after the writer was dropped) {}", v.what);
+                    st.violation(v);
+                }
+            }
+            Err(e) => st.violation(Violation::new("reopen_failed", format!("index {variant}: Index::open on the generated index: {e:?}"), json!({"kind":"intact","variant":variant}))),
+        }
         // random segment ids: pick the file by suffix, in sorted order of segment files with that suffix;
         // all files with that suffix are damaged in turn (same component of every segment)
         let nth = work[..i].iter().filter(|(v2, s2)| v2 == variant && s2 == suffix).count();
@@ -541,7 +577,7 @@ pub fn run(ctx: &Ctx) -> Report {
     rep.set("index_variants", variants.len() as u64);
     rep.set("segment_files_damaged", work.len() as u64);
     rep.set("component_kinds", json!(kinds_seen));
-    rep.set("rule", "(a) every sequence of <= 3 (thorough 4) writes of sizes {0,1,7,8191,8192,8193} x flush between x underlying writer accepting all / 1 byte / half; (b) every bit flip and 3 substitutions of every body byte, every truncation length, the body shortened under an intact footer (everything, every prefix, every suffix), extensions by 1..9 bytes at 4 positions, for every segment file of each index of the family; (c) 7 footer versions per file, through open_read and get_file_handle; written content is read back through both. Non-trivial: short-write pattern with data / any damage (distinct by file and damage)");
+    rep.set("rule", "(a) every sequence of <= 3 (thorough 5) writes of sizes {0,1,7,8191,8192,8193} x flush between x underlying writer accepting all / 1 byte / half; (b) every bit flip and 3 substitutions of every body byte, every truncation length, the body shortened under an intact footer (everything, every prefix, every suffix), extensions by 1..9 bytes at 4 positions, for every segment file of each index of the family, validated through the Index that wrote it and through an Index opened afterwards; (c) 7 footer versions per file, through open_read and get_file_handle; written content is read back through both. Non-trivial: short-write pattern with data / any damage (distinct by file and damage)");
     for k in ["bitflips", "truncations", "extensions", "version_cases", "short_write_pattern"] {
         if st.counters.get(k).copied().unwrap_or(0) == 0 {
             rep.machinery_errors.push(format!("vacuous: no {k} case was run"));
